@@ -141,10 +141,17 @@ func Epoch() uint64 { return epoch }
 // Active reports whether a simulation is running.
 func Active() bool { return cur != nil }
 
+// OutsideSim is the panic value of a simulator primitive that is used while no simulation is
+// running: the code under test has reached a synchronisation operation in a world that runs
+// without the scheduler. The runner catches it and runs the world again under the scheduler.
+type OutsideSim struct{}
+
+func (OutsideSim) String() string { return "verifsim: simulator primitive used outside a simulation" }
+
 func must() *Sim {
 	s := cur
 	if s == nil {
-		panic("verifsim: simulator primitive used outside a simulation")
+		panic(OutsideSim{})
 	}
 	return s
 }
